@@ -45,3 +45,50 @@ theorem splitRun_emits (g : List Nat → Option (List (List Nat))) : ∀ (k : Na
         | cons a as => rw [onToken_of_fill_cons g t a as hf]; simp [Filter.apply]
 
 end TantivyModel.Tok
+
+namespace TantivyModel.Tok
+
+/-- a step whose text result does not depend on the buffer makes the stream the stateless map -/
+theorem bufferedStream_of_step (step : List Nat → List Nat → List Nat × List Nat)
+    (h : List Nat → List Nat) (hs : ∀ buf text, (step buf text).1 = h text) :
+    ∀ (ts : List Token) (buf : List Nat),
+      (bufferedStream step buf ts).1 = ts.map (fun t => { t with text := h t.text }) := by
+  intro ts
+  induction ts with
+  | nil => intro buf; rfl
+  | cons t ts ih => intro buf; simp only [bufferedStream, List.map_cons, hs, ih]
+
+theorem lowerStep_text {clears : Nat} (hc : clears ≠ 0) (f : Nat → List Nat) (buf text : List Nat) :
+    (lowerStep clears f buf text).1 = lowerText f text := by
+  unfold lowerStep lowerText viaBuffer
+  split <;> simp [hc]
+
+theorem foldStep_text {clears : Nat} (hc : clears ≠ 0) (f : Nat → Option (List Nat))
+    (buf text : List Nat) : (foldStep clears f buf text).1 = foldText f text := by
+  unfold foldStep foldText viaBuffer
+  split <;> simp [hc]
+
+theorem stemStep_text {clears : Nat} (hc : clears ≠ 0) (g : List Nat → List Nat)
+    (owned : List Nat → Bool) (buf text : List Nat) : (stemStep clears g owned buf text).1 = g text := by
+  unfold stemStep viaBuffer
+  split <;> simp [hc]
+
+theorem apply_lower_eq_map (f : Nat → List Nat) (ts : List Token) :
+    (Filter.lower f).apply ts = ts.map (fun t => { t with text := lowerText f t.text }) := by
+  induction ts with
+  | nil => rfl
+  | cons t ts ih => simp only [Filter.apply, List.flatMap_cons, Filter.onToken, List.map_cons] at *; rw [ih]; rfl
+
+theorem apply_fold_eq_map (f : Nat → Option (List Nat)) (ts : List Token) :
+    (Filter.fold f).apply ts = ts.map (fun t => { t with text := foldText f t.text }) := by
+  induction ts with
+  | nil => rfl
+  | cons t ts ih => simp only [Filter.apply, List.flatMap_cons, Filter.onToken, List.map_cons] at *; rw [ih]; rfl
+
+theorem apply_stem_eq_map (g : List Nat → List Nat) (ts : List Token) :
+    (Filter.stem g).apply ts = ts.map (fun t => { t with text := g t.text }) := by
+  induction ts with
+  | nil => rfl
+  | cons t ts ih => simp only [Filter.apply, List.flatMap_cons, Filter.onToken, List.map_cons] at *; rw [ih]; rfl
+
+end TantivyModel.Tok
